@@ -266,9 +266,8 @@ def _coverage(repo, rep):
     # the key also covers body, class, filename, builtin names, versions
     d = repo.func(BT + "digest")
     t = L.text(d.node)
-    for need, what in (("get_pkg_digest()", "the installed package versions"),
-                       ("os.path.splitext(filename)[0] + '-' + digest",
-                        "the file name")):
+    for need, what in (("get_pkg_digest()", "the installed package "
+                        "versions"),):
         rep.check(need in t, "R15.1", d.qualname, "the key covers %s" % what,
                   construct="base:" + what, where=L.where(d))
     # what goes into the hash, in order: an injective encoding of (class,
@@ -355,7 +354,20 @@ def _coverage(repo, rep):
 
 
 def full_path_in_key(repo):
+    """the key depends on the template's complete path: either the readable
+    prefix is the path without extension, or the path is among the hashed
+    fields (then the prefix is cosmetic)"""
     d = repo.func(BT + "digest")
+    for st in d.node.body:
+        for n in ast.walk(st):
+            if isinstance(n, ast.Call) and isinstance(
+                    n.func, ast.Attribute) and n.func.attr == "update" \
+                    and n.args:
+                e = L.inline_locals(d.node, n.args[0])
+                t_ = src(e).replace(" ", "")
+                if "str(self.filename)" in t_ and "basename" not in t_ and \
+                        "splitext" not in t_:
+                    return True, ["hashed: " + src(e)[:80]]
     contrib = [n.value for n in ast.walk(d.node) if isinstance(n, ast.Assign)
                and src(n.targets[0]) == "digest"
                and "filename" in src(L.inline_locals(d.node, n.value))]
